@@ -82,3 +82,42 @@ Example C03_int_roundtrip_examples :
   map (fun n => py_int (dec n)) [0; 1; 9; 10; 255; 1024; 65535; 4294967296]%N
   = map (fun n => Some (Z.of_N n)) [0; 1; 9; 10; 255; 1024; 65535; 4294967296]%N.
 Proof. vm_compute. reflexivity. Qed.
+
+(* ------------------------------------------------------------------ *)
+(* One entry-level fact discharged (added by the integrator, Proofs/StreamInt.v): CPython's int() as modelled
+   (blanks, sign, digits with single underscores, the 4300-digit limit) reads str(n) back as n.  Hence the hypothesis
+   `py_int (size_of f) = Some |content|` of C03_clean / C03_relocate holds for every file shorter than 10^4300 bytes. *)
+From PFF Require Import Proofs.StreamInt.
+
+Theorem C03_int_roundtrip : forall n : N, (n < 10 ^ 4300)%N -> py_int (dec n) = Some (Z.of_N n).
+Proof. exact py_int_dec. Qed.
+Print Assumptions C03_int_roundtrip.
+
+Theorem C03_size_field : forall (T : list (list byte * list byte)),
+  (forall f, In f T -> (N.of_nat (length (snd f)) < 10 ^ 4300)%N) ->
+  forall f, In f T -> py_int (size_of f) = Some (zlen (snd f)).
+Proof.
+  intros T H f Hf. unfold size_of, zlen. rewrite (py_int_dec _ (H f Hf)). rewrite nat_N_Z. reflexivity.
+Qed.
+Print Assumptions C03_size_field.
+
+(* The intra-ecc fact of `entry_level_facts` (its first clause) is a theorem when `intra` / `enc` are instantiated with
+   the entry-metadata model (Entry.v, property C09) over the verified facade of any of the four real codecs: for both
+   tools' variants, every field comes back unchanged from its own intra-ecc (k = intra message size >= 1,
+   k + es <= 255, any decoder).  No codec hypothesis is left (Proofs/CodecInst.v). *)
+From PFF Require Entry Facade Proofs.CodecInst Props.C09.
+
+Theorem C03_intra_fact_rs : forall (algo : N) (k es : nat) dec, (1 <= k)%nat -> (k + es <= 255)%nat ->
+  let enc0 := CodecInst.ienc algo (k + es) k in let chk0 := CodecInst.ichk algo (k + es) k in
+  let intra_h := fun f e => fst (fst (Entry.hdr_intra_correct k es chk0 dec f e)) in
+  let intra_w := fun f e => fst (fst (Entry.whole_intra_correct k es chk0 dec f e)) in
+  forall field,
+    intra_h field (Entry.hdr_intra_encode k enc0 field) = field /\
+    intra_w field (Entry.whole_intra_encode k enc0 field) = field.
+Proof.
+  intros algo k es dec Hk Hn enc0 chk0 intra_h intra_w field. unfold intra_h, intra_w.
+  destruct (C09.C09_intra_roundtrip k es enc0 chk0 dec Hk (CodecInst.entry_enc_len algo k es Hk Hn)
+              (CodecInst.entry_chk_enc algo k es) field) as [A B].
+  rewrite A, B. split; reflexivity.
+Qed.
+Print Assumptions C03_intra_fact_rs.
